@@ -764,6 +764,8 @@ func (ef *errflow) analyse(f *ssa.Function, ci ssa.CallInstruction, site *ErrSit
 	if handled && len(problems) == 0 {
 		if msg := ef.untestedPath(e, C, tests2blocks(tests)); msg != "" {
 			problems = append(problems, msg)
+		} else if msg := ef.overwrittenPath(e, C, tests); msg != "" {
+			problems = append(problems, msg)
 		}
 	}
 	if !handled {
@@ -896,6 +898,104 @@ func (ef *errflow) untestedPath(e ssa.Value, C map[ssa.Value]bool, testBlocks ma
 	return ""
 }
 
+// overwrittenPath: the variable the error was assigned to is assigned another call's result on some path before
+// it has been tested (`x, err := f(); if c { y, err = g() }; if err != nil {...}`): the later test then looks at
+// the other value, and f's failure is lost on that path. Decided on the merge points: an edge into a merge of
+// the variable that brings a value which is not this error, reached from the call without a test of it.
+func (ef *errflow) overwrittenPath(e ssa.Value, C map[ssa.Value]bool, tests []ntest) string {
+	ins, ok := e.(ssa.Instruction)
+	if !ok {
+		return ""
+	}
+	if ex, isEx := e.(*ssa.Extract); isEx {
+		if ti, ok := ex.Tuple.(ssa.Instruction); ok {
+			ins = ti
+		}
+	}
+	f := ins.Parent()
+	start := ins.Block()
+	testBlocks := tests2blocks(tests)
+	if testBlocks[start] {
+		return ""
+	}
+	errIdx := errResultIndex(f.Signature)
+	retBlocks := map[*ssa.BasicBlock]bool{}
+	allInstrs(f, func(j ssa.Instruction) {
+		if ret, ok := j.(*ssa.Return); ok && errIdx >= 0 && (C[ret.Results[errIdx]] || C[resolveSpill(ret.Results[errIdx])]) {
+			retBlocks[j.Block()] = true
+		}
+	})
+	if retBlocks[start] {
+		return ""
+	}
+	seen := map[*ssa.BasicBlock]bool{start: true}
+	stack := []*ssa.BasicBlock{start}
+	for len(stack) > 0 {
+		p := stack[len(stack)-1]
+		stack = stack[:len(stack)-1]
+		eq := sentinelEqSucc(p, C)
+		for _, b := range p.Succs {
+			if b == eq && eq != nil {
+				continue
+			}
+			// does this edge replace the value in every merge of the variable at b?
+			nphi, nlost := 0, 0
+			var other ssa.Value
+			for _, j := range b.Instrs {
+				ph, isPhi := j.(*ssa.Phi)
+				if !isPhi {
+					break
+				}
+				if !C[ph] {
+					continue
+				}
+				nphi++
+				lost := true
+				for i, q := range b.Preds {
+					if q == p && C[ph.Edges[i]] {
+						lost = false
+					}
+				}
+				if lost {
+					for i, q := range b.Preds {
+						if q == p {
+							other = ph.Edges[i]
+						}
+					}
+					nlost++
+				}
+			}
+			if nphi > 0 && nlost == nphi && other != nil {
+				if k, isK := other.(*ssa.Const); !isK || k.Value != nil {
+					// a non-nil replacement only when it is another call's error (a fresh error made for this failure is idiom I2)
+					if _, isCallRes := errSourceCall(other); isCallRes {
+						return fmt.Sprintf("on the path through block %d (%s) the variable is assigned another call's error before this one has been tested: the failure is lost there", p.Index, ef.c.ipos(firstPosInstr(p)))
+					}
+				}
+			}
+			if seen[b] || testBlocks[b] || retBlocks[b] {
+				continue
+			}
+			seen[b] = true
+			stack = append(stack, b)
+		}
+	}
+	return ""
+}
+
+// errSourceCall: v is the error result of a call (directly or as the extracted element of its tuple).
+func errSourceCall(v ssa.Value) (ssa.CallInstruction, bool) {
+	switch x := v.(type) {
+	case *ssa.Call:
+		return x, true
+	case *ssa.Extract:
+		if c, ok := x.Tuple.(*ssa.Call); ok {
+			return c, true
+		}
+	}
+	return nil, false
+}
+
 // rowsIterationObligations: I6 — every rows.Next() must be followed by a handled rows.Err().
 func (ef *errflow) rowsIteration(f *ssa.Function, r *Report, rule string) {
 	ordn := newOrdinals()
@@ -1000,6 +1100,38 @@ func runErrflow(c *Ctx, eff *Effects, r *Report, scope map[*ssa.Function]bool, r
 	r.Extra["pure_callee_sites_excluded"] = pure
 	r.Extra["effectful_sites"] = len(sites)
 	return sites
+}
+
+// runErrflowSites: the error rule for selected call sites only (a property that shares the rule for the calls its
+// own clause depends on), reported under that property's rule name.
+func runErrflowSites(c *Ctx, eff *Effects, r *Report, scope []*ssa.Function, rule string, keep func(names []string) bool) int {
+	ef := &errflow{c: c, eff: eff, sync: c.Sync}
+	n := 0
+	for _, f := range scope {
+		ordn := newOrdinals()
+		for _, ci := range callsOf(f) {
+			cc := ci.Common()
+			if errResultIndex(cc.Signature()) < 0 {
+				continue
+			}
+			name := calleeName(cc)
+			k := ordn.next(name)
+			if !keep(forwardedCallees(ci)) {
+				continue
+			}
+			site := &ErrSite{Fn: f, Call: ci, Callee: name, Ord: k}
+			ef.analyse(f, ci, site)
+			n++
+			if why, ok := auditedErrSites[site.construct()]; ok && site.Problem != "" && strings.Contains(site.Problem, "without the error having been tested") {
+				r.audited(rule, site.construct(), c.ipos(ci), why)
+			} else if site.Problem != "" {
+				r.viol(rule, site.construct(), c.ipos(ci), "swallowed: "+site.Problem)
+			} else {
+				r.okNT(rule, site.construct(), c.ipos(ci), "handled by "+site.Idiom)
+			}
+		}
+	}
+	return n
 }
 
 // forwardedCallees: the name of the called function, or - for a helper the reference tree does not have - the names of
